@@ -377,6 +377,13 @@ def run_layout(pid, tier):
     if need_compile:
         cov["rustc_types_checked"] = {t: len(v) for t, v in pl.layouts.items()}
         cov["rustc_rejected_cases"] = {t: len(v) for t, v in pl.cfail.items()}
+    if pid == "C03":
+        # the unbounded half: remainders (Realisable, Resolve.tla) and rounded offsets (RustLayout.tla) say the same
+        from .bounds import tlaps_proofs
+        cov["tlaps"] = tlaps_proofs("ArithProofs", needs=("Arith.tla",),
+                                    theorems=("RoundUpFacts: RoundUp(n, a) is the multiple of a in n .. n+a-1",
+                                              "FixedIffAligned: RoundUp(n, a) = n <=> n % a = 0, for naturals of any size",
+                                              "PaddedPlace: after explicit padding up to an aligned address the compiler adds none"))
     res.coverage = cov
     res.assumptions = [
         "RustLayout.tla (the model of the compiler) is trusted only as far as this run's cross-check against host rustc, "
